@@ -14,3 +14,14 @@ package multiproof
 //@ ensures result == nil <==> (rd_len(r) == p0 + 576 && rd_fail(r) >= rd_len(r) && okPointAt(r, p0) && okPoints8(r, p0 + 32) && okPoints8(r, p0 + 288) && okScalarAt(r, p0 + 544))
 //@ ensures result == nil ==> len(mp.IPA.L) == 8 && len(mp.IPA.R) == 8
 //@ modifies *mp, rpos(r)
+
+//@ func MultiProof.Write
+//@ props C10
+//@ prelude field curve bytesint io
+//@ let c0 = wcalls(w)
+//@ let n0 = wlen(w)
+//@ let total = len(mp.IPA.L) + len(mp.IPA.R) + 2
+//@ requires wlen(w) >= 0 && obj(w) != obj(mp) && obj(w) != obj(mp.IPA.L) && obj(w) != obj(mp.IPA.R)
+//@ ensures (c0 <= wr_fail(w) && wr_fail(w) < c0 + total) ==> result != nil
+//@ ensures (wr_fail(w) < c0 || wr_fail(w) >= c0 + total) ==> result == nil && wcalls(w) == c0 + total && wlen(w) == n0 + 32 * total
+//@ modifies wcalls(w), wlen(w), wout(w, n0, n0 + 32 * total)
